@@ -104,6 +104,7 @@ def spreadParam (res : GoVal) : Option (List Prm) :=
       | some l, .str false s => some (l ++ [Prm.str s])
       | some l, .bool false b => some (l ++ [Prm.bool b])
       | _, _ => none) (some [])
+  | .slice true true _ => some []      -- a nil []any (what Select returns for an empty list): no arguments
   | _ => none
 
 def selectOn (recv : GoVal) (run : GoVal → Out) : Out :=
